@@ -152,6 +152,29 @@ def _plain_violation(text, root, prefix):
     return None
 
 
+def nested_fn_doc(rng):
+    """footnotes inside footnotes; paragraphs that consist of nothing but a reference"""
+    w = gen.Words(rng)
+    ind = rng.choice([0, 1, 2])
+    pre = []
+    for d in range(ind):
+        pre.append('  ' * d + rng.choice(['SEC', 'PART', 'PARA']) + ' %d' % rng.randint(1, 5))
+    p = '  ' * ind
+    only = rng.random() < 0.6
+    lines = pre + [p + ('' if only else w.some(1)) + '{{FOOTNOTE 1}}' + ('' if only or rng.random() < 0.5 else ' ' + w.some(1)),
+                   p + 'FOOTNOTE 1',
+                   p + '  ' + (w.some(1) if rng.random() < 0.7 else '') + '{{FOOTNOTE 2}}',
+                   p + '  FOOTNOTE 2',
+                   p + '    ' + w.some(2)]
+    if rng.random() < 0.4:
+        lines.append(p + '  ' + w.some(1))
+    if rng.random() < 0.4:
+        lines.append(p + w.some(2))
+    if rng.random() < 0.3:
+        lines = ['TABLE', '  TR', '    TC'] + ['      ' + l for l in lines]
+    return '\n'.join(lines) + '\n'
+
+
 def run(ctx, info):
     rng = ctx.rng
     failures = []
@@ -163,7 +186,7 @@ def run(ctx, info):
     for _ in range(n):
         root = rng.choice(gen.ROOTS7)
         k = rng.random()
-        t = gen.doc_text(rng, root, corners=0.25) if k < 0.85 else gen.noise_text(rng)
+        t = gen.doc_text(rng, root, corners=0.25) if k < 0.7 else nested_fn_doc(rng) if k < 0.85 else gen.noise_text(rng)
         cases.append((t, root, rng.choice(['', '', 'att_1'])))
     nb = 0
     known = {}
